@@ -887,20 +887,23 @@ class ExprMixin:
         self.assume(n >= 0)
         guard = z3.And(iv >= 0, iv < n)
         base = self.alloc
+        # the result sequence first: all facts about the new objects are stated through R[iv] (arithmetic-free triggers)
+        R = fresh(Ty('seq', elem=Ty('ref', cls=rcls, nullable=False), skind='list'), self.fresh_name('comp'))
+        self.assume(R.n == n)
+        refz = z3.Select(R.elem.z, iv)
         if ctor:
-            refz = base + iv
             newalloc = z3.simplify(base + n)
+            self.assume(z3.ForAll([iv], z3.Implies(guard, refz == base + iv)))
             result = VRef(refz, rcls, nullable=False)
             self.assume(z3.ForAll([iv], z3.Implies(guard, self.cls_of(refz) == self.repo.class_ids[rcls])))
             selfarg = [result]
         else:
-            blk = z3.Function(self.fresh_name('blk'), I, I)
-            refz = blk(iv)
             newalloc = self.fresh_int('alloc')
             jv = self.fresh_int('cj')
             self.assume(newalloc >= base)
-            self.assume(z3.ForAll([iv], z3.Implies(guard, z3.And(blk(iv) >= base, blk(iv) < newalloc))))
-            self.assume(z3.ForAll([iv, jv], z3.Implies(z3.And(iv >= 0, iv < jv, jv < n), blk(iv) < blk(jv))))
+            self.assume(z3.ForAll([iv], z3.Implies(guard, z3.And(refz >= base, refz < newalloc))))
+            self.assume(z3.ForAll([iv, jv], z3.Implies(z3.And(iv >= 0, iv < jv, jv < n),
+                                                       z3.Select(R.elem.z, iv) < z3.Select(R.elem.z, jv))))
             result = VRef(refz, rcls, nullable=False)
             selfarg = [fnv.selfv]
         bound = self.bind_contract(c, selfarg + list(args), kwargs, fi)
@@ -938,7 +941,4 @@ class ExprMixin:
             self.in_quant -= 1
         for g_post in posts:
             self.assume(z3.ForAll([iv], z3.Implies(guard, g_post)))
-        R = fresh(Ty('seq', elem=Ty('ref', cls=rcls, nullable=False), skind='list'), self.fresh_name('comp'))
-        self.assume(R.n == n)
-        self.assume(z3.ForAll([iv], z3.Implies(guard, z3.Select(R.elem.z, iv) == refz)))
         return R
